@@ -14,6 +14,9 @@ R4.12 the path template reaches the URL unchanged apart from placeholder renamin
 R4.13 the overload implementation selects a media type's branch by the presence of that media type's body argument
 R4.14 the None-stripping pass of the body serialiser never drops an element of a list (only dict keys with a None value)
 R4.15 hook registration descends into every field of a body model (no field is skipped by name)                          [= R16.7]
+R4.16 the argument serialiser decides `isinstance(x, Enum)` (-> value) before its str / int shortcut (generated enums are str / int subclasses)
+R4.17 a fixed local of the generated method that is bound before arguments are read is not a possible argument name        [finding: `url`]
+R4.18 a raw body (`data=<bytes>`) is always sent together with a `Content-Type` header carrying the declared media type
 R4.10 an object occurring twice in a body is serialised twice (visited set = recursion stack)   [= R16.2 bookkeeping instance]
 R4.11 the transport forwards json/data/files/params unchanged, also when they are empty/falsy      [= R17.3]
 R4.9  a supplied header parameter reaches the wire with the caller's value: in the bundled transport per-request
@@ -127,7 +130,8 @@ def run(repo: Repo, rep: Report, tier: str) -> None:
             for kw, what in (("params", "query"), ("headers", "header")):
                 lits = sorted({t.strip().rstrip(",") for t, _ in lines if t.strip().startswith(f"{kw}=")})
                 sub = f"{mod.relpath}:{fn.qualname} `{kw}=` of the transport call"
-                dynamic = [l for l in lits if l != f"{kw}=None"]
+                # "dynamic": the argument mentions the dict built from the operation's parameters (`headers=headers`, `headers={..., **headers}`)
+                dynamic = [l for l in lits if re.search(rf"\b{kw}\b", l.split("=", 1)[1])]
                 if dynamic:
                     rep.ok("R4.2", sub, f"emits {lits}: `{kw}` carries the {what} parameters when there are any", fn.loc())
                 else:
@@ -230,6 +234,9 @@ def run(repo: Repo, rep: Report, tier: str) -> None:
     # R4.11: the transport forwards every caller kwarg except headers unchanged (an empty list / dict body is still a body)
     _reuse4(repo, rep, "c17", {"R17.3": "R4.11"})
     rule_array_elements_kept(repo, rep, "R4.14")
+    rule_enum_before_primitive_shortcut(repo, rep, "R4.16")
+    rule_locals_do_not_shadow_arguments(repo, rep, "R4.17")
+    rule_raw_body_has_content_type(repo, rep, "R4.18")
     # R4.15: the unstructure hooks (wire-key renaming) are registered for the type of *every* field of a body model, private storage of the
     # generated map wrappers included                                                                                   [= R16.7]
     from rules import _converter as _cv415
@@ -539,3 +546,214 @@ def rule_array_elements_kept(repo: Repo, rep, rule: str = "R4.14") -> None:
                       "move up - the body on the wire is not the serialised argument", fn.loc(hz[0]))
     else:
         rep.ok(rule, sub, "every element of a list is kept (only dict keys with a None value are removed)", fn.loc())
+
+
+# ------------------------------------------------------------------------------------------------ R4.16 enum arguments are sent by value
+def rule_enum_before_primitive_shortcut(repo: Repo, rep, rule: str = "R4.16") -> None:
+    """Generated enums are `class X(str, Enum)` / `class X(int, Enum)`: a member *is* a str / an int.  The argument serialiser the generated
+    methods apply to path, query and header arguments has a shortcut that returns str / int / float / bool values unchanged; an enum member
+    that takes it is later formatted into the URL or the query string as `X.MEMBER` (Enum.__str__ / __format__), not as its value.  The
+    Enum test (returning `.value`) must therefore come first: it dominates the primitive shortcut."""
+    from sa.cfg import CFG
+
+    utils = repo.module("core.utils")
+    ds = utils.classes.get("DataclassSerializer")
+    fn = ds.methods.get("_serialize_with_tracking") if ds is not None else None
+    if fn is None:
+        raise AnalysisError(f"{rule}: anchor vanished: DataclassSerializer._serialize_with_tracking")
+    p = [a for a in fn.params if a not in ("self", "cls")][0]
+    cfg = CFG(fn.node)
+    dom = cfg.dominators()
+
+    def isinst(t: ast.AST, names) -> bool:
+        for c in ast.walk(t):
+            if isinstance(c, ast.Call) and dotted(c.func) == "isinstance" and len(c.args) == 2 and isinstance(c.args[0], ast.Name) and c.args[0].id == p:
+                ts = c.args[1].elts if isinstance(c.args[1], ast.Tuple) else [c.args[1]]
+                if any((dotted(x) or "").split(".")[-1] in names for x in ts):
+                    return True
+        return False
+
+    prim = [n for n in cfg.nodes if n.kind == "test" and isinst(n.ast, ("str", "int"))]
+    enum = [n for n in cfg.nodes if n.kind == "test" and isinst(n.ast, ("Enum",)) and not isinst(n.ast, ("str", "int"))]
+    # the shortcut: the true branch of the primitive test returns the value as it is
+    shortcuts = []
+    for n in prim:
+        for m, lab in cfg.succ[n.id]:
+            if lab == "true":
+                for k in {m} | cfg.reachable_from_without(m, set()):
+                    a = cfg.nodes[k].ast
+                    if isinstance(a, ast.Return) and isinstance(a.value, ast.Name) and a.value.id == p and n.id in dom[k]:
+                        shortcuts.append(n)
+                        break
+    shortcuts = list({n.id: n for n in shortcuts}.values())
+    rep.require(len(shortcuts) >= 1, f"{rule}: the primitive shortcut (`isinstance({p}, (str, int, ...))` -> `return {p}`) of _serialize_with_tracking was not found (anchor)")
+    for n in shortcuts:
+        sub = f"{utils.relpath}:DataclassSerializer._serialize_with_tracking primitive shortcut `{norm(n.ast)[:50]}`"
+        first = [e for e in enum if e.id in dom[n.id]]
+        by_value = False
+        for e in first:
+            for m, lab in cfg.succ[e.id]:
+                if lab == "true":
+                    for k in {m} | cfg.reachable_from_without(m, {n.id}):
+                        a = cfg.nodes[k].ast
+                        if isinstance(a, ast.Return) and a.value is not None and any(isinstance(x, ast.Attribute) and x.attr in ("value", "_value_") for x in ast.walk(a.value)):
+                            by_value = True
+        if by_value:
+            rep.ok(rule, sub, f"`isinstance({p}, Enum)` is decided first and returns the member's value", fn.loc(first[0].ast))
+        else:
+            rep.violation(rule, sub, f"{fn.fq}|enum-member-takes-primitive-shortcut",
+                          f"a member of a generated `(str, Enum)` / `(int, Enum)` class satisfies `{norm(n.ast)[:50]}` and is returned as it is: an enum-typed path or query argument "
+                          "reaches the wire as `Status.ON` (Enum.__str__ / __format__) instead of `on`", fn.loc(n.ast))
+
+
+# ------------------------------------------------------------------------------------------------ R4.17 a local of the generated method never takes an argument's place
+def rule_locals_do_not_shadow_arguments(repo: Repo, rep, rule: str = "R4.17") -> None:
+    """The generated endpoint method keeps its working values in locals with fixed names (`url = f"..."`).  Arguments are named by
+    `sanitize_method_name(<parameter name>)`.  If a fixed local name is a possible argument name (not a keyword, not in the sanitiser's
+    reserved set) and the line binding the local is emitted *before* a line that reads an argument variable, then for a parameter of that
+    name the caller's value is overwritten before it is sent (a query parameter `url` goes out as the request URL).  Bindings that open a
+    bracket (`params: dict[str, Any] = {`) are not judged: the entries emitted after them belong to the same statement and are evaluated
+    before the name is bound."""
+    import keyword as _kw
+    import re as _re
+    from sa.cfg import CFG
+    from sa.flatten import flatten
+
+    ua = repo.func(f"{GEN}.url_args_generator:EndpointUrlArgsGenerator.generate_url_and_args")
+    fn = flatten(ua)
+    utils = repo.module("core.utils")
+    ns = utils.classes.get("NameSanitizer")
+    smn = ns.methods.get("sanitize_method_name") if ns is not None else None
+    if smn is None:
+        raise AnalysisError(f"{rule}: anchor vanished: NameSanitizer.sanitize_method_name")
+    # names the sanitiser refuses (gives a trailing underscore): the class-level sets it consults
+    consulted = {x.attr for c in ast.walk(smn.node) if isinstance(c, ast.Compare) and isinstance(c.ops[0], ast.In) for x in ast.walk(c.comparators[0]) if isinstance(x, ast.Attribute)}
+    refused: Set[str] = set()
+    for st in ns.node.body:
+        if isinstance(st, (ast.Assign, ast.AnnAssign)):
+            t = st.targets[0] if isinstance(st, ast.Assign) else st.target
+            if isinstance(t, ast.Name) and t.id in consulted and isinstance(st.value, (ast.Set, ast.List, ast.Tuple)):
+                refused |= {const_str(e) for e in st.value.elts if const_str(e)}
+    rep.require(len(refused) >= 20, f"{rule}: the reserved-name set consulted by sanitize_method_name was not found (anchor)")
+    cfg = CFG(fn.node)
+    pv = {t.id for st in own_nodes(fn.node) if isinstance(st, ast.Assign) and isinstance(st.value, ast.Call) and isinstance(st.value.func, ast.Attribute)
+          and st.value.func.attr == "sanitize_method_name" for t in st.targets if isinstance(t, ast.Name)}
+    binds, reads = [], []
+    for n in cfg.nodes:
+        if n.kind != "stmt" or n.ast is None or n.copy:
+            continue
+        for c in calls_in(n.ast):
+            if not (isinstance(c.func, ast.Attribute) and c.func.attr == "write_line" and c.args):
+                continue
+            t = template_of(c.args[0])
+            if t is None or not t.parts:
+                continue
+            static = "".join(p if isinstance(p, str) else "\x00" for p in t.parts)
+            m = _re.match(r"^\s*([a-z_][a-z0-9_]*)(: [^=]+)? = ", static)
+            if m and not static.rstrip().endswith(("{", "(", "[")):
+                binds.append((n, m.group(1)))
+            if any(isinstance(x, ast.FormattedValue) and isinstance(x.value, ast.Name) and x.value.id in pv for x in ast.walk(c.args[0])):
+                reads.append(n)
+    rep.count(f"{rule}:local_bindings", sorted({b for _, b in binds}))
+    rep.count(f"{rule}:argument_reads", len(reads))
+    rep.require(bool(binds) and bool(reads), f"{rule}: local bindings / argument reads of generate_url_and_args not found (anchor: {len(binds)} / {len(reads)})")
+    seen = set()
+    for b, name in binds:
+        if name in pv or name in seen:
+            continue  # `<arg> = DataclassSerializer.serialize(<arg>)`: the hole *is* an argument
+        later = [r for r in reads if r.id in cfg.reachable(b.id) and r.id != b.id]
+        if not later:
+            continue
+        seen.add(name)
+        sub = f"{ua.module.relpath}:generate_url_and_args local `{name}` bound before arguments are read"
+        if _kw.iskeyword(name) or name in refused:
+            rep.ok(rule, sub, f"`{name}` is not a possible argument name (sanitize_method_name turns it into `{name}_`)", fn.loc(b.ast))
+        else:
+            rep.violation(rule, sub, f"{ua.fq}|local-shadows-argument|{name}",
+                          f"the line binding `{name}` is emitted before lines that read argument variables, and `{name}` is itself a possible argument name "
+                          f"(sanitize_method_name('{name}') == '{name}'): for a query / header parameter called `{name}` the caller's value is overwritten first and never sent",
+                          fn.loc(b.ast))
+
+
+# ------------------------------------------------------------------------------------------------ R4.18 a raw body goes out with its declared media type
+def rule_raw_body_has_content_type(repo: Repo, rep, rule: str = "R4.18") -> None:
+    from sa.match import truthiness as truth
+    """httpx derives the Content-Type of `json=`, `files=` and form `data=` bodies itself.  A raw body (`data=<bytes>`, used for every other declared
+    media type: application/octet-stream, text/plain, application/xml ...) carries none: the request template that sends it must pass the
+    declared media type as a `Content-Type` header - on every path from the `data=bytes_body` argument to the emitted call."""
+    from sa.cfg import CFG
+
+    fn0 = repo.func(f"{GEN}.request_generator:EndpointRequestGenerator.generate_request_call")
+
+    def body(fn, r):
+        cfg = CFG(fn.node)
+
+        def appended(n, pred) -> bool:
+            return n.kind == "stmt" and n.ast is not None and not n.copy and any(
+                isinstance(c.func, ast.Attribute) and c.func.attr == "append" and c.args and pred(c.args[0]) for c in calls_in(n.ast))
+
+        def text(e: ast.AST) -> str:
+            t = template_of(e)
+            return "".join(p if isinstance(p, str) else "\x00" for p in t.parts) if t is not None else ""
+
+        raw = [n for n in cfg.nodes if appended(n, lambda a: text(a).startswith(("data=bytes", "content=")))]
+        ct = {n.id for n in cfg.nodes if appended(n, lambda a: "Content-Type" in text(a) and text(a).startswith("headers="))}
+        emits = {n.id for n in cfg.nodes if n.kind == "stmt" and n.ast is not None and any(
+            isinstance(c.func, ast.Attribute) and c.func.attr == "write_line" and c.args and "self._transport.request(" in text(c.args[0]) for c in calls_in(n.ast))}
+        if not raw or not emits:
+            raise AnalysisError(f"{rule}: the `data=bytes_body` argument / the emitted request call of generate_request_call were not found (anchor: {len(raw)} / {len(emits)})")
+        # a flag that is set exactly when the raw body was chosen (`v = <media type> if "data=bytes_body" in args_list else None`, or assigned next to
+        # the append): branches taken when that flag is false are not ways of a raw body
+        L = Locals(fn.node)
+        raw_txt = {text(c.args[0]) for n in raw for c in calls_in(n.ast) if isinstance(c.func, ast.Attribute) and c.func.attr == "append" and c.args}
+        flags = set()
+        for name, ds in L.defs.items():
+            for _, v, st in ds:
+                if isinstance(v, ast.IfExp) and any(isinstance(x, ast.Constant) and x.value in raw_txt for x in ast.walk(v.test)) and isinstance(v.orelse, ast.Constant) and not v.orelse.value:
+                    flags.add(name)
+        for n in raw:
+            blk = parent(n.ast)
+            for st in getattr(blk, "body", []) + getattr(blk, "orelse", []):
+                if isinstance(st, ast.Assign) and len(st.targets) == 1 and isinstance(st.targets[0], ast.Name) and any(st2 is n.ast for st2 in getattr(blk, "body", []) + getattr(blk, "orelse", [])):
+                    others = [v for _, v, s2 in L.defs.get(st.targets[0].id, []) if s2 is not st]
+                    if all(isinstance(v, ast.Constant) and not v.value for v in others):
+                        flags.add(st.targets[0].id)
+
+        def search(start: int):
+            from collections import deque
+            prev = {start: None}
+            dq = deque([start])
+            while dq:
+                k = dq.popleft()
+                if k in emits and k != start:
+                    path = []
+                    cur = k
+                    while cur is not None:
+                        path.append(cur)
+                        cur = prev[cur]
+                    return list(reversed(path))
+                nd = cfg.nodes[k]
+                for m, lab in cfg.succ[k]:
+                    if m in prev or m in ct:
+                        continue
+                    if nd.kind == "test" and lab in ("true", "false"):
+                        tv = truth(nd.ast)
+                        if tv is not None and isinstance(tv[0], ast.Name) and tv[0].id in flags and ((lab == "true") != tv[1]):
+                            continue  # the flag is false on this edge: not a raw body
+                    prev[m] = k
+                    dq.append(m)
+            return None
+
+        for n in raw:
+            sub = f"{fn.module.relpath}:generate_request_call raw body `{norm(n.ast)[:50]}`"
+            w = search(n.id)
+            if w is None:
+                r.ok(rule, sub, "every path to the emitted call adds a `headers={\"Content-Type\": <declared media type>...}` argument", fn.loc(n.ast))
+            else:
+                r.violation(rule, sub, f"{fn0.fq}|raw-body-without-content-type",
+                            f"the call is emitted with the raw body but without a Content-Type ({cfg.describe_path(w)[:120]}): a body declared as application/octet-stream / text/plain / "
+                            "application/xml goes out with no content type at all", fn.loc(n.ast))
+
+    from sa.report import with_flatten_fallback
+
+    with_flatten_fallback(rep, fn0, body)
